@@ -54,6 +54,9 @@ type IterSpec struct {
 	MayFail   bool
 	ErrResult string // name of the error result (default "err")
 	Ordered   bool
+	// Dual: the iterator clauses sit on a plain (callback pure) contract; they apply only at call sites whose
+	// callback is a literal with closure invariants, and are ASSUMED (not checked against the body)
+	Dual bool
 }
 
 type FuncContract struct {
@@ -602,6 +605,9 @@ func (c *Contracts) ParseText(path string, text string, pkgPath string) error {
 			}
 			cur.Asserts = append(cur.Asserts, &AssertSpec{Before: stmt, Clause: cl, Assume: w == "assume", Nth: nth})
 		case "yields":
+			if cur != nil && cur.Iter == nil {
+				cur.Iter = &IterSpec{ErrResult: "err", Dual: true}
+			}
 			if cur == nil || cur.Iter == nil {
 				return fail(l, "yields outside iterator func")
 			}
